@@ -195,13 +195,13 @@ def grep_forbidden():
     return hits
 
 
-def lean_gate(prop_modules, theorems, extra_targets=()):
+def lean_gate(prop_modules, theorems, extra_targets=(), audit_ns=()):
     """Build the property's modules and audit the axioms of its theorems.
 
     Returns dict(ok, obligations, discharged, failed=[...], log).  `theorems` are fully
     qualified names; obligations = len(theorems) (+ generated ones counted by the caller)."""
     res = {"ok": True, "obligations": len(theorems), "discharged": 0, "failed": [], "log": ""}
-    ok, out = lake_build(list(prop_modules) + list(extra_targets))
+    ok, out = lake_build(list(prop_modules) + list(extra_targets) + (["FteikVerif.Audit"] if audit_ns else []))
     res["log"] = out[-6000:]
     if not ok:
         res["ok"] = False
@@ -216,7 +216,10 @@ def lean_gate(prop_modules, theorems, extra_targets=()):
     # axiom audit
     os.makedirs(os.path.join(CACHE, "tmp"), exist_ok=True)
     src = "".join(f"import {m}\n" for m in prop_modules)
+    if audit_ns:
+        src = "import FteikVerif.Audit\n" + src
     src += "".join(f"#print axioms {t}\n" for t in theorems)
+    src += "".join(f"#audit_ns {n}\n" for n in audit_ns)
 
     def go():
         with tempfile.NamedTemporaryFile("w", suffix=".lean", dir=os.path.join(CACHE, "tmp"),
@@ -244,6 +247,19 @@ def lean_gate(prop_modules, theorems, extra_targets=()):
             res["failed"].append(f"{t}: axioms {sorted(seen[t] - ALLOWED_AXIOMS)}")
         else:
             res["discharged"] += 1
+    res["audit_ns"] = {}
+    for m in re.finditer(r"AUDIT (\S+): declarations=(\d+) bad=(\d+) holes=(\d+)", txt):
+        res["audit_ns"][m.group(1)] = (int(m.group(2)), int(m.group(3)), int(m.group(4)))
+    for n in audit_ns:
+        if n not in res["audit_ns"]:
+            res["failed"].append(f"namespace {n}: not audited")
+        else:
+            cnt, bad, sor = res["audit_ns"][n]
+            res["obligations"] += cnt
+            if bad or sor:
+                res["failed"].append(f"namespace {n}: {bad} non-standard axioms, {sor} holes")
+            else:
+                res["discharged"] += cnt
     if res["failed"]:
         res["ok"] = False
         res["log"] += "\n" + txt[-3000:]
